@@ -781,7 +781,7 @@ func runCase(w *vh.W, e *env, c *jcase) {
 
 func main() {
 	w := vh.New("C21", "From Coq Require Import String Ascii.\nFrom Verif Require Import Base.Prelude Model.C21.\nOpen Scope string_scope.", "case", "check")
-	w.Rule = "dataset: 1-3 shard groups of 10ns (at 0,10,20; random creation order; a third flushed to TSM half-way), 1-7 (sometimes 10-18) series out of 2 measurements x {t0,t1} x {absent,a,b}, fields f0(int)/f1(float), 1-6 points per series-field-shard biased to the first/last instant of the shard, all values distinct; 6 requests per dataset: ReadFilter / ReadGroup(GroupBy|GroupNone, 0-3 keys of t0,t1,_measurement,_field,tx, HintSchemaAllTime 1/5) with range ends from {MinInt64, MinNanoTime, shard boundaries +-1, random in [-2,33), MaxNanoTime, MaxInt64} and a predicate (3/4) of depth <= 2 over = / != on _measurement,_field,t0,t1,tx with AND/OR/parentheses. Non-trivial: >= 2 returned rows have points and (when there are >= 2 shards) some row has points of more than one shard. Distinct: distinct Gallina terms."
+	w.Rule = "dataset: 1-3 shard groups of 10ns (at 0,10,20; random creation order; a third flushed to TSM half-way), 1-7 (sometimes 10-18) series out of 2 measurements x {t0,t1} x {absent,a,b}, fields f0(int)/f1(float), 1-6 points per series-field-shard biased to the first/last instant of the shard, all values distinct; 6 (12 when n >= 2000) requests per dataset: ReadFilter / ReadGroup(GroupBy|GroupNone, 0-3 keys of t0,t1,_measurement,_field,tx, HintSchemaAllTime 1/5) with range ends from {MinInt64, MinNanoTime, shard boundaries +-1, random in [-2,33), MaxNanoTime, MaxInt64} and a predicate (3/4) of depth <= 2 over = / != on _measurement,_field,t0,t1,tx with AND/OR/parentheses. Non-trivial: >= 2 returned rows have points and (when there are >= 2 shards) some row has points of more than one shard. Distinct: distinct Gallina terms."
 	var rc jcase
 	if w.ReplayCase(&rc) {
 		e := newEnv(rc.Shards)
@@ -856,10 +856,14 @@ func main() {
 		}
 		e.close()
 	}
+	perDataset := 6
+	if w.N >= 2000 {
+		perDataset = 12 // thorough tier: amortise the cost of building a store
+	}
 	for w.Len() < w.N {
 		shards := genDataset(w)
 		e := newEnv(shards)
-		for q := 0; q < 6 && w.Len() < w.N; q++ {
+		for q := 0; q < perDataset && w.Len() < w.N; q++ {
 			c := jcase{Shards: shards}
 			genQuery(w, &c)
 			runCase(w, e, &c)
